@@ -6,7 +6,7 @@
 From UL Require Import Bytes Subtags LangId Ext Grammar LangIdSpec LocaleInv AbstractLocale LocaleSpec Canonical CanonLocale Prefix
                        BytesProofs SubtagProofs SplitProofs LangIdProofs LangIdAlgebra CanonProofs ExtProofs RoundTrip InvProofs
                        LocaleSpecProofs LengthProofs LocaleLength CanonLocaleProofs StringLevel PrefixProofs LocaleOrd LocaleAlgebra Likely Inst Ops
-                       TablesData OpsInvProofs RefineProofs Oracle.
+                       TablesData OpsInvProofs RefineProofs PrintZone Oracle.
 From Coq Require Import String Lia.
 Open Scope N_scope.
 
@@ -198,11 +198,22 @@ Proof.
   rewrite (model_reparse_same _ I). reflexivity.
 Qed.
 
+Lemma canon_text_printed l : loc_inv l = true -> canon_locale_text (loc_to_string l) = true.
+Proof.
+  intros H. pose proof H as H0. unfold loc_inv in H0. apply andb_true_iff in H0 as [Hi He].
+  assert (AL : forallb (forallb is_alnum) (loc_tokens l) = true).
+  { unfold loc_tokens. rewrite List.forallb_app. apply andb_true_iff; split; [exact (li_tokens_alnum _ Hi)|exact (ext_tokens_alnum _ He)]. }
+  assert (NE : loc_tokens l <> []) by (unfold loc_tokens, li_tokens; discriminate).
+  unfold canon_locale_text. rewrite (loc_to_string_canonical l H). unfold loc_to_string at 1. rewrite (join_alphabet _ AL). cbn [andb].
+  unfold loc_to_string at 1. rewrite (split_join _ NE (alnum_all_nosep _ AL)).
+  destruct (printed_zone l H) as [[|] ->]; apply beqb_refl.
+Qed.
+
 Theorem locale_group_sound op args r : oracle_model_locale op args = Some r ->
-  beqb op (bs "loc_canonicalize") = false -> beqb op (bs "loc_meta") = false -> beqb op (bs "li_meta") = false ->
+  beqb op (bs "loc_meta") = false -> beqb op (bs "li_meta") = false ->
   passes (oracle_spec_locale op args r).
 Proof.
-  unfold oracle_model_locale, oracle_spec_locale. intros H X1 X2 X3. set (a := arg1 args) in *.
+  unfold oracle_model_locale, oracle_spec_locale. intros H X2 X3. set (a := arg1 args) in *.
   destruct (beqb op (bs "locale")) eqn:E1.
   { apply some_inj in H; subst r. only_op E1. unfold passes, spec_locale_ok.
     destruct (locale_from_bytes_total a) as [[l P]|[e P]]; rewrite P; cbn [fmt_res_e].
@@ -213,7 +224,20 @@ Proof.
       + rewrite ok_not_panic. reflexivity.
     - destruct (spec_locale_zone (split a)) eqn:Z; try reflexivity.
       rewrite (locale_complete a v Z) in P. discriminate. }
-  rewrite X1 in H.
+  destruct (beqb op (bs "loc_canonicalize")) eqn:E2.
+  { apply some_inj in H; subst r. only_op E2. unfold passes, loc_canonicalize.
+    assert (LEN : forall l, locale_from_bytes a = Ok l -> (List.length (loc_to_string l) <=? List.length a)%nat = true).
+    { intros l P. apply Nat.leb_le. apply (loc_canonicalize_length a). unfold loc_canonicalize. rewrite P. reflexivity. }
+    destruct (locale_from_bytes_total a) as [[l P]|[e P]]; rewrite P; cbn [bind fmt_res_e].
+    - pose proof (locale_sound a l P) as S. pose proof (locale_parse_inv _ _ P) as I.
+      destruct (spec_locale_zone (split a)); try subst v.
+      + rewrite beqb_refl, (canon_text_printed l I), (LEN l P). reflexivity.
+      + rewrite beqb_refl, (canon_text_printed l I), (LEN l P). apply orb_true_r.
+      + destruct S.
+      + change (bs "OK " ++ loc_to_string l) with (79 :: 75 :: 32 :: loc_to_string l). lazy beta iota.
+        rewrite (canon_text_printed l I), (LEN l P). apply orb_true_r.
+    - destruct (spec_locale_zone (split a)) eqn:Z; try reflexivity.
+      rewrite (locale_complete a v Z) in P. discriminate. }
   destruct (beqb op (bs "loc_roundtrip")) eqn:E3.
   { apply some_inj in H; subst r. only_op E3. unfold passes.
     destruct (locale_from_bytes_total a) as [[l P]|[e P]]; rewrite P; [|reflexivity].
